@@ -43,14 +43,17 @@ def close(a, b, tol=1e-9):
     return bool(((a - b).abs() <= tol * torch.clamp(b.abs(), min=1.0)).all())
 
 
-def check_arch(rec, name, model, X, R, seed, stats):
+def check_arch(rec, name, model, X, R, seed, stats, nested_mode=0):
     from tangermeme.deep_lift_shap import deep_lift_shap
     n_out = model[-1].out_features
+    flat = model
+    if nested_mode:
+        model = D.nest(flat, nested_mode)       # same layer objects, nested containers / custom wrapper
     model.train()
     Xr = X[:, None].expand(-1, R.shape[1], -1, -1).reshape(-1, *X.shape[1:])
     Rr = R.reshape(-1, *R.shape[2:])
     import copy
-    ref_model = copy.deepcopy(model)
+    ref_model = copy.deepcopy(flat)
     for target in range(n_out):
         exp, band, nder = D.rescale_multipliers(ref_model, Xr, Rr, target)
         stats["derivative_entries"] += nder
@@ -102,6 +105,9 @@ def run_arch(rec, sh, tier, seed):
             rec.case(1, int(depth >= 1))
             rec.count("programs")
             check_arch(rec, "%s|w%d" % (name, ws), model, X, R, seed, stats)
+            if n % 3 == 0 and len(model) >= 3:
+                rec.count("programs_nested")
+                check_arch(rec, "%s|w%d|nested%d" % (name, ws, 1 + (n // 3) % 2), model, X, R, seed, stats, nested_mode=1 + (n // 3) % 2)
     for k, v in stats.items():
         rec.count(k, v)
     rec.sample(dict(skeleton=sk, L=L, architectures=n, example=archs[len(archs) // 2][0] if archs else None))
@@ -195,7 +201,8 @@ def replay(v):
         sk, acts, convs, pool, ws = _parse(c["arch"])
         X, R = D.inputs(c["L"], c.get("weights_seed", 0))
         model = D.build(sk, acts, convs, pool, c["L"], 2, ws)
-        check_arch(rec, c["arch"], model, X, R, c.get("weights_seed", 0), dict(calls=0, ok=0, skipped_unbuildable=0, excluded_band=0, derivative_entries=0))
+        check_arch(rec, c["arch"], model, X, R, c.get("weights_seed", 0), dict(calls=0, ok=0, skipped_unbuildable=0, excluded_band=0, derivative_entries=0),
+                   nested_mode=int(c["arch"][-1]) if "|nested" in c["arch"] else 0)
     elif c.get("arch", "").startswith("affine"):
         run_affine(rec, "quick", 0)
     else:
